@@ -17,14 +17,14 @@ Inductive payload :=
 Record entry := mkE { eidx : N; epay : payload }.
 
 (* consecutive indices from [from] *)
-Fixpoint number (from : N) (pl : list payload) : list entry :=
+Fixpoint number_log (from : N) (pl : list payload) : list entry :=
   match pl with
   | [] => []
-  | p :: r => mkE from p :: number (N.succ from) r
+  | p :: r => mkE from p :: number_log (N.succ from) r
   end.
 
 (* a Ready batch that is a window of the log *)
-Definition window (L : list entry) (lo len : nat) : list entry := firstn len (skipn lo L).
+Definition log_window (L : list entry) (lo len : nat) : list entry := firstn len (skipn lo L).
 
 (* uint64 arithmetic of Go *)
 Definition W64 : N := 18446744073709551616.
@@ -52,7 +52,7 @@ Definition cmds_of (ents : list entry) : list (bytes * list bytes) := flat_map c
 
 (* raft.go publishEntries for entries that passed entriesToApply: the proposals of the normal,
    non-empty entries go to commitC as one RaftCommit; appliedIndex becomes the last index *)
-Definition publish (applied : N) (ents : list entry) : N * list (bytes * list bytes) :=
+Definition publish_entries (applied : N) (ents : list entry) : N * list (bytes * list bytes) :=
   match ents with
   | [] => (applied, [])
   | _ => (eidx (last ents (mkE 0 PEmpty)), cmds_of ents)
@@ -63,7 +63,7 @@ Definition ready_step (applied : N) (ents : list entry)
   : option (N * list entry * list (bytes * list bytes)) :=
   match entries_to_apply applied ents with
   | None => None
-  | Some nents => let '(a', batch) := publish applied nents in Some (a', nents, batch)
+  | Some nents => let '(a', batch) := publish_entries applied nents in Some (a', nents, batch)
   end.
 
 (* a sequence of Ready batches; accumulates every entry counted as applied, in order *)
